@@ -12,17 +12,6 @@ namespace Mappy.DictUtils
 
 def delMark : Str := ['_','_','d','e','l','e','t','e','_','_']
 
-/-- Python truthiness -/
-def truthy : J → Bool
-  | .null => false
-  | .bool b => b
-  | .int n => n != 0
-  | .flt s => !(s = ['0','.','0'] || s = ['-','0','.','0'])
-  | .str s => !s.isEmpty
-  | .list xs => !xs.isEmpty
-  | .tup xs => !xs.isEmpty
-  | .dict kvs => !kvs.isEmpty
-
 /-- `d.get("__delete__", False)` is truthy -/
 def delFlag (p : Fields) : Bool := truthy ((lookup delMark p).getD (.bool false))
 
